@@ -968,6 +968,20 @@ def run(ctx: Ctx, rs: RuleSet, tier: str):
   pk_rule(ctx, rs)
   delegation(ctx, rs)
   children_before_call(ctx, rs)
+  # premise shared with C02: the build traversal hands each argument the result
+  # computed for that very object - its memo is keyed by identity, so a value
+  # can never receive the result of another, merely equal, one (0.0 / -0.0,
+  # (1, 1) / (1.0, 1.0) / (True, True))
+  from fdlstatic.rules import c02
+  from fdlstatic.report import RuleSet as _RS
+  sub = _RS(rs.prop)
+  c02.run(ctx, sub, 'quick')
+  rs.declare('IDMEMO.traversal-memo', 'the memo of the build traversal is '
+             'keyed by id(value) and pins the value (premise, decided with '
+             'C02)', 2)
+  for o in sub.obs:
+    if o.rule == 'IDMEMO.traversal-memo':
+      rs.add(o)
 
 
 MANIFEST = dict(
